@@ -879,6 +879,11 @@ class TunnelCommunity(Community):
             return
 
         result = await self.should_join_circuit(payload, source_address)
+        # An overridden should_join_circuit may have suspended us: the circuit id can have been taken in the meantime.
+        if (self.request_cache.has(CreatedRequestCache, payload.circuit_id) or payload.circuit_id in self.circuits
+                or payload.circuit_id in self.relay_from_to or payload.circuit_id in self.exit_sockets):
+            self.logger.warning("Circuit id %d was taken while deciding whether to join", payload.circuit_id)
+            return
         if result:
             self.join_circuit(payload, source_address)
         else:
